@@ -152,12 +152,17 @@ struct Stats {
     lde_bits: BTreeSet<usize>,
     schedules: BTreeSet<String>,
     violations: Vec<Value>,
+    violations_per_key: BTreeMap<String, u64>,
     drift: Vec<Value>,
     samples: Vec<Value>,
 }
 impl Stats {
+    /// at most 3 records per key (schedule x kind of failure), 60 in all: every kind stays visible
     fn violation(&mut self, v: Value) {
-        if self.violations.len() < 20 {
+        let key = v["key"].as_str().unwrap_or("").to_string();
+        let n = self.violations_per_key.entry(key).or_insert(0);
+        *n += 1;
+        if *n <= 3 && self.violations.len() < 60 {
             self.violations.push(v);
         }
     }
@@ -192,25 +197,35 @@ fn classify(q: &[usize], ar: &[usize]) -> (bool, Vec<bool>) {
 static DEADLINE_MS: AtomicU64 = AtomicU64::new(20_000);
 static ABANDONED: AtomicU64 = AtomicU64::new(0);
 
+type Job<C> = Box<dyn FnOnce(&VerifierCircuitData<F, C, D>) + Send>;
 struct Lib<C: GenericConfig<D, F = F>> {
-    vd: Arc<VerifierCircuitData<F, C, D>>,
+    /// one worker thread per configuration; dropped sender = worker ends (unless it is stuck: abandoned)
+    jobs: mpsc::Sender<Job<C>>,
     timed_out: Cell<Option<&'static str>>,
 }
 impl<C: GenericConfig<D, F = F> + 'static> Lib<C> {
+    fn new(vd: VerifierCircuitData<F, C, D>) -> Self {
+        let (jobs, rx) = mpsc::channel::<Job<C>>();
+        std::thread::Builder::new().stack_size(64 << 20).spawn(move || {
+            for job in rx {
+                job(&vd);
+            }
+        }).expect("worker thread");
+        Self { jobs, timed_out: Cell::new(None) }
+    }
     fn call<T: Send + 'static>(&self, what: &'static str,
                                f: impl FnOnce(&VerifierCircuitData<F, C, D>) -> anyhow::Result<T> + Send + 'static)
         -> Result<anyhow::Result<T>, String> {
         if self.timed_out.get().is_some() {
             return Err("not run: an earlier call of this configuration did not terminate".into());
         }
-        let vd = self.vd.clone();
         let (tx, rx) = mpsc::channel();
-        let spawned = std::thread::Builder::new().stack_size(64 << 20).spawn(move || {
-            let r = guarded(|| f(&vd));
+        let job: Job<C> = Box::new(move |vd| {
+            let r = guarded(|| f(vd));
             let _ = tx.send(r);
         });
-        if let Err(e) = spawned {
-            return Err(format!("could not spawn a worker thread: {e}"));
+        if self.jobs.send(job).is_err() {
+            return Err("worker thread is gone".into());
         }
         // once threads were abandoned the machine is busy with them: be less patient
         let ms = DEADLINE_MS.load(Ordering::Relaxed);
@@ -271,7 +286,7 @@ fn one_config<C: GenericConfig<D, F = F> + 'static>(cfg: &Cfg, nproofs: usize, r
         *st.skipped_after_nontermination.entry(sched).or_insert(0) += 1;
         return;
     }
-    let lib = Lib::<C> { vd: Arc::new(data.verifier_data()), timed_out: Cell::new(None) };
+    let lib = Lib::<C>::new(data.verifier_data());
     // a library call that did not return within the deadline: VIOLATION, give this configuration up
     macro_rules! gave_up {
         ($st:expr, $ctx:expr, $q:expr) => {
@@ -624,7 +639,7 @@ fn real(args: &[String]) -> anyhow::Result<()> {
         "roundtrips": st.roundtrips, "recompressions": st.recompressions,
         "roundtrips_by_schedule": st.roundtrips_by_schedule, "abandoned_by_schedule": st.abandoned_by_schedule,
         "configs_skipped_after_nontermination": st.skipped_after_nontermination,
-        "threads_abandoned": ABANDONED.load(Ordering::Relaxed), "verdict_pairs": st.verdict_pairs, "tampered": st.tampered,
+        "threads_abandoned": ABANDONED.load(Ordering::Relaxed), "violations_per_key": st.violations_per_key, "verdict_pairs": st.verdict_pairs, "tampered": st.tampered,
         "tampered_both_accept": st.tampered_both_accept, "tampered_compress_panics": st.tampered_compress_panics,
         "redundant_tampers": st.redundant_tampers, "redundant_rejected_plain": st.redundant_rejected_plain,
         "redundant_accepted_compressed": st.redundant_accepted_compressed,
